@@ -8,7 +8,7 @@ reads within arguments + never-written constants => results are a function of th
 independent of history and of interleaving with other threads."""
 import z3, ast, os, datetime, inspect
 import numpy as np
-from vp import engine as E, sym as S, bounded as B
+from vp import engine as E, sym as S, bounded as B, state as ST
 from vp.report import Prop
 from vp.sym import Sym, lift, real
 from vp.ghosts import GhostDate, WriteBarrier
@@ -56,12 +56,18 @@ def main():
         from .C06 import PARAMS, RATES, SDS
         sdo = C.TransformationSD(**{k: real(k) for k in SDS + tuple('sd_d_' + p for p in PARAMS)}) if sd else None
         return C.Transformation('F', 'T', GhostDate(ref), *[real(k) for k in PARAMS + RATES], tf_sd=sdo)
-    pure = lambda n: (lambda *a, **k: tuple(Sym(z3.Real('STUB_%s_%d' % (n, i))) for i in range(6)))
-    stub3 = lambda n: (lambda *a, **k: tuple(Sym(z3.Real('STUB_%s_%d' % (n, i))) for i in range(3)))
-    stub4 = lambda n: (lambda *a, **k: tuple(Sym(z3.Real('STUB_%s_%d' % (n, i))) for i in range(4)))
-    g2g_stub = lambda *a, **k: ('South', a[2] if len(a) > 2 else 0, Sym(z3.Real('S_e')), Sym(z3.Real('S_n')), Sym(z3.Real('S_k')), Sym(z3.Real('S_g')))
-    mat_stub = lambda *a, **k: np.array([[Sym(z3.Real('M%d%d' % (i, j))) for j in range(3)] for i in range(3)], dtype=object)
-    c7_stub = lambda *a, **k: (Sym(z3.Real('c7x')), Sym(z3.Real('c7y')), Sym(z3.Real('c7z')), mat_stub() if (len(a) > 4 and a[4] is not None) or k.get('vcv') is not None else None)
+    def ufv(tag, a, k):
+        """a pure stub of a callee: an uninterpreted function of EVERYTHING the call passes (so that a result that reaches the
+        caller through written module state stays visible in the caller's result)"""
+        ts = [t if z3.is_real(t) else z3.ToReal(t) for t in ST.terms_of([list(a), sorted(k.items())]) if z3.is_real(t) or z3.is_int(t)]
+        f = z3.Function('STUB_%s_%d' % (tag, len(ts)), *([S.R] * (len(ts) + 1)))
+        return Sym(f(*ts)) if ts else Sym(z3.Real('STUB_%s' % tag))
+    pure = lambda n: (lambda *a, **k: tuple(ufv('%s_%d' % (n, i), a, k) for i in range(6)))
+    stub3 = lambda n: (lambda *a, **k: tuple(ufv('%s_%d' % (n, i), a, k) for i in range(3)))
+    stub4 = lambda n: (lambda *a, **k: tuple(ufv('%s_%d' % (n, i), a, k) for i in range(4)))
+    g2g_stub = lambda *a, **k: ('South', a[2] if len(a) > 2 else 0, ufv('S_e', a, k), ufv('S_n', a, k), ufv('S_k', a, k), ufv('S_g', a, k))
+    mat_stub = lambda *a, **k: np.array([[ufv('M%d%d' % (i, j), a, k) for j in range(3)] for i in range(3)], dtype=object)
+    c7_stub = lambda *a, **k: (ufv('c7x', a, k), ufv('c7y', a, k), ufv('c7z', a, k), mat_stub(*a, **k) if (len(a) > 4 and a[4] is not None) or k.get('vcv') is not None else None)
     hp_stub = lambda h: h * 10000 / 3600
     T1 = symT()
     vlist = RecList([real('va1'), real('va2'), real('va3'), real('va4')])
@@ -113,7 +119,7 @@ def main():
         ('survey.humidity2part_water_vapour_press', sv, lambda: sv.humidity2part_water_vapour_press(a1, x), {}, [], []),
         ('transform.conform7', tr, lambda: tr.conform7(x, y, z, T1), dict(hp2dec=hp_stub), [], [T1, T1.tf_sd]),
         ('transform.conform7[vcv]', tr, lambda: tr.conform7(x, y, z, T1, V()), dict(hp2dec=hp_stub), ['arr'], [T1, T1.tf_sd]),
-        ('transform.conform14[vcv]', tr, lambda: tr.conform14(x, y, z, GhostDate(to), T1, V()), dict(datetime=GhostDTm, conform7=c7_stub), ['arr'], [T1, T1.tf_sd]),
+        ('transform.conform14[vcv]', tr, lambda: tr.conform14(x, y, z, GhostDate(to), T1, V()), dict(datetime=GhostDTm, conform7=c7_stub, __constants__=dict(date=GhostDate)), ['arr'], [T1, T1.tf_sd]),
         ('transform.transform_mga94_to_mga2020[vcv]', tr, lambda: tr.transform_mga94_to_mga2020(zn, a1, a2, a3, V()),
          dict(grid2geo=stub4('g2'), geo2grid=g2g_stub, llh2xyz=stub3('l2'), xyz2llh=stub3('x2'), conform7=c7_stub, vcv_local2cart=mat_stub, vcv_cart2local=mat_stub), ['arr'], []),
         ('transform.transform_mga2020_to_mga94[vcv]', tr, lambda: tr.transform_mga2020_to_mga94(zn, a1, a2, a3, V()),
@@ -147,9 +153,10 @@ def main():
             rb.update(rb2)
             f = mk()
             thunk = (lambda f=f, call=call: call(f))
+        rbC = rb.pop('__constants__', {})
         try:
-            with E.rebound(mod, **rb), wb:
-                pth = E.explore(thunk, vl_pre if 'list' in owned else ())
+            with E.rebound(mod, **rb), E.rebound(C, **rbC), wb:
+                pth = E.explore(thunk, vl_pre if 'list' in owned else (), history=True, label=name)
         except S.EngineError as ex:
             P.oblige('frame[%s]' % name, name, 'engine', dict(result='sat', backend='engine error: %s' % ex, ms=0), strict=True)
             continue
@@ -157,7 +164,10 @@ def main():
         writes = list(wb.writes)
         arr_writes = [p for p in pth if p['kind'] == 'raise' and 'read-only' in str(p['val'])]
         bad_list = list(RecList.log)
-        ok = bool(pth) and not writes and not arr_writes and not bad_list
+        # written module state (memo tables ...): results after an arbitrary earlier call must still be a function of the arguments
+        hist_dep = [p for p in pth if p.get('history') and not p.get('independent')]
+        completes = any(p['kind'] in ('ret', 'loopback') for p in pth)          # vacuity guard: the body has been run to completion on some path
+        ok = completes and not writes and not arr_writes and not bad_list and not hist_dep
 
         def refute(w, name=name):
             if name == 'survey.precise_inst_ht':
@@ -170,7 +180,8 @@ def main():
             return None
         P.oblige('frame[%s]' % name, name, '%d paths' % len(pth), dict(result='discharged' if ok else 'sat', backend='write barrier + recording list + read-only arrays, all paths', ms=0, model=None),
                  strict=True, refute=refute, pool=[{}],
-                 note='assigns nothing that existed before the call; writes=%r list-mutators=%r array-writes=%d' % ([(c_, n_) for c_, n_, _, _ in writes][:6], bad_list[:4], len(arr_writes)))
+                 note='assigns nothing that existed before the call; writes=%r list-mutators=%r array-writes=%d; paths whose result depends on an earlier call through written module state: %d of %d history paths' % (
+                     [(c_, n_) for c_, n_, _, _ in writes][:6], bad_list[:4], len(arr_writes), len(hist_dep), sum(bool(p.get('history')) for p in pth)))
     P.notes.append('frame obligations explored %d paths of %d functions' % (total_paths, len(CAT)))
 
     # ---------------------------------------------------------------- (2) static frame analysis and (3) reads, per module
@@ -178,6 +189,7 @@ def main():
         src = open(os.path.join(E.REPO, 'geodepy', m + '.py')).read()
         tree = ast.parse(src)
         flagged, reads_bad = [], []
+        state_names = {e['name'] for e in ST.STATE if e['owner'] is mods.get('geodepy.' + m) and e['kind'] == 'container'}
         modglobals = set()
         for n in tree.body:
             for t in ast.walk(n) if isinstance(n, (ast.Assign, ast.AugAssign)) else []:
@@ -209,11 +221,11 @@ def main():
                             b = base(q)
                             if b == 'self' and fn.name == '__init__':
                                 continue
-                            if b is not None and (b in params or (b not in fresh)):
+                            if b is not None and (b in params or (b not in fresh)) and b not in state_names:
                                 flagged.append((fn.name, n.lineno, ast.unparse(q)))
                 if isinstance(n, ast.Call) and isinstance(n.func, ast.Attribute) and n.func.attr in MUTATORS:
                     b = base(n.func.value)
-                    if b is not None and (b in params or b not in fresh):
+                    if b is not None and (b in params or b not in fresh) and b not in state_names:
                         flagged.append((fn.name, n.lineno, ast.unparse(n.func)))
                 if isinstance(n, (ast.Global, ast.Nonlocal)):
                     flagged.append((fn.name, n.lineno, 'global/nonlocal ' + ','.join(n.names)))
@@ -226,7 +238,7 @@ def main():
         P.oblige('reads[%s]' % m, 'geodepy/%s.py' % m, 'AST scan', dict(result='discharged' if not reads_bad else 'sat', backend='AST scan of calls', ms=0), strict=True,
                  note='no clock, RNG, environment, file or console access: %r' % (reads_bad[:6],))
     # module-level mutable containers: present but never written (checked by frame_static) - listed for the record
-    P.notes.append('module-level containers read by functions: statistics.ttable_p95 (list, never written)')
+    P.notes.append('module-level containers read by functions: statistics.ttable_p95 (list, never written); written module state (judged by the history paths of frame[f], not by frame_static): %r' % (ST.describe(),))
     P.assumptions += ['bit-identical repetition additionally assumes determinism of CPython float operations and of numpy matmul on fixed shapes',
                       'allowed effects besides the return value: raising an exception and warnings.warn (ISG/ellipsoid notice in geo2grid/grid2geo; it touches only the interpreter warning registry, which no library result reads)',
                       'scalar preconditions: latitude/longitude/coordinates are numbers (an ndarray passed where a scalar is documented could be rebound in place by operators such as *=)']
